@@ -32,6 +32,9 @@ def fail_variants(prog, rnd):
     p['ins'].append(sp.Gen('Out', 2, [sp.C(0), sp.R(len(p['ins']))], 0))     # control rate into an audio output
     out['check'] = p
     p = copy.deepcopy(prog)
+    p['ins'].insert(len(p['ins']) - 1, dict(op='raise', cls='', sel='', rate=0, nout=1, a=[]))
+    out['late'] = p             # fails after every unit (width-first ones included) has been created
+    p = copy.deepcopy(prog)
     p['name'] = 'n' * 300                                                    # cannot be written as a pascal string
     out['write'] = p
     return out
@@ -39,6 +42,22 @@ def fail_variants(prog, rnd):
 
 def reference_programs(ctx, rnd, n):
     progs = [sp.random_program(rnd, rnd.randint(6, 40), 'ref%d' % (i % 3), mce=True, wf=True) for i in range(n)]
+    # definitions with width-first units (local buffers, FFT chains, seeding): state they leave behind - in a successful
+    # or a failing build - must not reach any later build ("arbitrary earlier use of the library")
+    for i in range(max(2, n // 4)):
+        ins = [sp.Gen('SinOsc', 2, [sp.C(440), sp.C(0)]), sp.Gen('LocalBuf', 0, [sp.C(1), sp.C(rnd.choice([64, 128, 512]))]),
+               sp.Gen('ClearBuf', 0, [sp.R(2)]), sp.Gen('FFT', 1, [sp.R(2), sp.R(1), sp.C(1), sp.C(0), sp.C(1), sp.C(0)]),
+               sp.Gen('PV_MagSquared', 1, [sp.R(4)]), sp.Gen('IFFT', 2, [sp.R(5), sp.C(0), sp.C(0)]),
+               sp.Gen('RandSeed', 1, [sp.C(1), sp.C(1000 + i)]), sp.Gen('WhiteNoise', 2, []),
+               sp.Bin('*', sp.R(6), sp.R(8))]
+        if i % 2:
+            ins.insert(2, sp.Gen('SetBuf', 0, [sp.R(2), sp.C(0), sp.C(2), sp.C(1), sp.C(2)]))
+            for k in ins[3:]:
+                for o in k['a']:
+                    if o['k'] == 'r' and o['i'] > 2:
+                        o['i'] += 1
+        ins.append(sp.Gen('Out', 2, [sp.C(0), sp.R(len(ins))], 0))
+        progs.append(sp.Prog('wf%d' % i, [], ins))
     # plus graphs with many consumers per unit (descendant sets bigger than one: scheduling order matters)
     for i in range(n // 2):
         ins = [sp.Gen('SinOsc', 2, [sp.C(440), sp.C(0)]), sp.Gen('WhiteNoise', 2, [])]
@@ -90,7 +109,7 @@ def seq_scenario(rnd, sid, progs, variants, special=None):
         if x < 0.4:
             steps.append(dict(k='build', prog=progs[i], key='k%d' % i))
         elif x < 0.6:
-            kind = rnd.choice(['func', 'check', 'write'])
+            kind = rnd.choice(['func', 'late', 'check', 'write'])
             steps.append(dict(k='build', prog=variants[i][kind], key='k%d!%s' % (i, kind)))
             steps.append(dict(k='probe'))
             steps.append(dict(k='build', prog=progs[i], key='k%d' % i))
@@ -117,7 +136,7 @@ def thread_scenario(rnd, sid, progs, variants, nthreads, special=None):
         if x < 0.6:
             first = dict(k='build', prog=progs[i], key='k%d' % i)
         else:
-            kind = rnd.choice(['func', 'check'])
+            kind = rnd.choice(['func', 'late', 'check'])
             first = dict(k='build', prog=variants[i][kind], key='k%d!%s' % (i, kind))
         j = rnd.randrange(len(progs))
         second = dict(k='build', prog=progs[j], key='k%d' % j)
@@ -160,7 +179,8 @@ def run(ctx):
     # 2. the same reference programs in fresh processes: hash seeds, RT mode, and the GC stress
     allseq = dict(id=0, kind='seq', steps=[dict(k='build', prog=p, key='k%d' % i) for i, p in enumerate(progs)]
                   + [dict(k='build', prog=variants[i][kind], key='k%d!%s' % (i, kind))
-                     for i in range(len(progs)) for kind in ('func', 'check', 'write')] + [dict(k='probe')]
+                     for i in range(len(progs)) for kind in ('func', 'late', 'check', 'write')] + [dict(k='probe')]
+                  + [dict(k='build', prog=p, key='k%d' % i) for i, p in enumerate(progs)]      # rebuild everything
                   + [st for how in HOWS_OBJ for st in (dict(k='use', prog=progs[0], key='k0', how=how, variant='valid'),
                                                        dict(k='probe'),
                                                        dict(k='use', prog=special['unknown'], key='unknown', how=how,
